@@ -135,7 +135,7 @@ def missingOperand (st : St) (toks : List String) : Bool :=
         let isTarget := (op == "copy" || op == "move") && a == 1
         !isTarget && (st.w.vecs (t.drop 1).toString.toNat!).isNone
       else if t.length == 2 && t.startsWith "e" then
-        let isTarget := ((op == "elem" || op == "elemref" || op == "elemmv") && a == 0) || ((op == "elemcopy" || op == "elemmove") && a == 1)
+        let isTarget := ((op == "elem" || op == "elemref" || op == "elemmv") && a == 0) || ((op == "elemcopy" || op == "elemmove" || op == "elemcopya" || op == "elemmovea") && a == 1)
         !isTarget && (st.elems (t.drop 1).toString.toNat!).isNone
       else false)
 
@@ -325,6 +325,16 @@ def step (st : St) (line : String) : St × List String :=
       let ew := st.ew.elemSwap ai bi
       finE ew ([dumpElem st.ps ai (ew.elems ai)] ++ (if ai ≠ bi then [dumpElem st.ps bi (ew.elems bi)] else []))
     else (st, [s!"bad-op {op}"])
+  | ["elemcopya", a, b, al] =>
+    let (ai, bi) := (vidx a, vidx b)
+    let ew := (st.ew.elemDestroy st.ps bi).elemCopyA st.ps ai bi al.toNat!
+    let (st2, o) := fin ew.w [dumpElem st.ps ai (ew.elems ai), dumpElem st.ps bi (ew.elems bi)]
+    ({ st2 with elems := ew.elems }, o)
+  | ["elemmovea", a, b, al] =>
+    let (ai, bi) := (vidx a, vidx b)
+    let ew := (st.ew.elemDestroy st.ps bi).elemMoveA st.ps ai bi al.toNat!
+    let (st2, o) := fin ew.w [dumpElem st.ps ai (ew.elems ai), dumpElem st.ps bi (ew.elems bi)]
+    ({ st2 with elems := ew.elems }, o)
   | [op, e, v, i] =>
     let (k, vi, i) := (vidx e, vidx v, i.toNat!)
     match st.elems k, (w.vecs vi).bind (·.get i) with
